@@ -9,6 +9,7 @@ import (
 	"os"
 	"sort"
 	"strings"
+	"sync/atomic"
 	"time"
 
 	"verif/simrt"
@@ -23,19 +24,19 @@ type Violation struct {
 
 // Outcome of one simulated run.
 type Outcome struct {
-	Violations   []Violation     `json:"violations,omitempty"`
-	Inconclusive string          `json:"inconclusive,omitempty"`
-	NonTrivial   map[string]bool `json:"nontrivial,omitempty"` // per property
-	Probes       map[string]int  `json:"probes,omitempty"`
-	Faults       map[string]int  `json:"faults,omitempty"`
-	EndReason    string          `json:"end_reason"`
-	SimTime      time.Duration   `json:"sim_time"`
-	Steps        int             `json:"steps"`
-	Hash         uint64          `json:"hash"`
-	Goroutines   int             `json:"goroutines"`
-	Summary      any             `json:"summary,omitempty"` // short description for evidence samples
+	Violations   []Violation      `json:"violations,omitempty"`
+	Inconclusive string           `json:"inconclusive,omitempty"`
+	NonTrivial   map[string]bool  `json:"nontrivial,omitempty"` // per property
+	Probes       map[string]int   `json:"probes,omitempty"`
+	Faults       map[string]int   `json:"faults,omitempty"`
+	EndReason    string           `json:"end_reason"`
+	SimTime      time.Duration    `json:"sim_time"`
+	Steps        int              `json:"steps"`
+	Hash         uint64           `json:"hash"`
+	Goroutines   int              `json:"goroutines"`
+	Summary      any              `json:"summary,omitempty"` // short description for evidence samples
 	Decisions    []simrt.Decision `json:"-"`
-	Trace        []string        `json:"-"`
+	Trace        []string         `json:"-"`
 }
 
 func (o *Outcome) Violate(prop, sig, format string, args ...any) {
@@ -104,7 +105,9 @@ func Exec(h Harness, cfg Cfg, script []simrt.Decision, replay bool, trace bool) 
 	if replay {
 		sim.SetScript(script)
 	}
+	Current.Store(&ExecInfo{H: h, Cfg: cfg, Sim: sim})
 	o := h.Run(cfg, sim)
+	Current.Store(nil)
 	o.SimTime = sim.Now()
 	o.Steps = sim.Steps()
 	o.Hash = sim.Hash()
@@ -128,22 +131,31 @@ func Exec(h Harness, cfg Cfg, script []simrt.Decision, replay bool, trace bool) 
 	return o
 }
 
+// ExecInfo describes the execution in progress (read by the wall-clock spin watch of the worker binary).
+type ExecInfo struct {
+	H   Harness
+	Cfg Cfg
+	Sim *simrt.Sim
+}
+
+var Current atomic.Pointer[ExecInfo]
+
 // Replay is the replay file format.
 type Replay struct {
-	Property  string           `json:"property"`
-	Harness   string           `json:"harness"`
-	Tier      string           `json:"tier"`
-	Seed      uint64           `json:"seed"`
-	Index     int              `json:"run_index"`
-	Cfg       json.RawMessage  `json:"config"`
-	Script    []simrt.Decision `json:"decisions"`
-	Signature string           `json:"signature"`
-	Detail    string           `json:"detail"`
-	Hash      string           `json:"trace_hash"`
-	Steps     int              `json:"steps"`
-	SimTime   string           `json:"sim_time"`
-	OrigDecisions int          `json:"decisions_before_minimisation"`
-	Note      string           `json:"note,omitempty"`
+	Property      string           `json:"property"`
+	Harness       string           `json:"harness"`
+	Tier          string           `json:"tier"`
+	Seed          uint64           `json:"seed"`
+	Index         int              `json:"run_index"`
+	Cfg           json.RawMessage  `json:"config"`
+	Script        []simrt.Decision `json:"decisions"`
+	Signature     string           `json:"signature"`
+	Detail        string           `json:"detail"`
+	Hash          string           `json:"trace_hash"`
+	Steps         int              `json:"steps"`
+	SimTime       string           `json:"sim_time"`
+	OrigDecisions int              `json:"decisions_before_minimisation"`
+	Note          string           `json:"note,omitempty"`
 }
 
 func WriteReplay(path string, r *Replay) error {
